@@ -225,7 +225,10 @@ def ob_read(report, kind):
             else:
                 st = head.fields[hf.index('status')]
                 code = z3.BitVec(f'{rawv}.{rf.index("status")}', 16)
-                idx = ex.enums.index('StatusCode', st.variant) if isinstance(st, Agg) else None
+                idx = ex.enums.index('StatusCode', st.variant) if isinstance(st, Agg) and st.variant else None
+                if okh and isinstance(st, Agg) and idx is None:
+                    return ob.done([ex], 'inconclusive', f'the numeric codes of StatusCode are not declared literally in the source (macro-generated enum?): cannot relate {vrepr(st)} to the decoded status',
+                                   paths=len(res))
                 okh = okh and idx is not None and e2.solve(r.pc + [code != idx], want_model=False)[0] == 'unsat'
             if not okh:
                 return viol(ob, ex, f'{fname}: header rebuilt as {vrepr(head)[:200]} - expected (decoded {"route" if kind == "request" else "status"}, preamble version, decoded headers, fresh extensions)',
@@ -255,9 +258,11 @@ def ob_serde_fields(report):
                 o = ob.done([], 'violated', f'{Raw} has fields {rf}; the established wire header is ({first}, headers) in that order', {'fields': rf}, key=f'raw-fields-{kind}')
                 o.replay = write_replay(PROP, o.name, {'fields': rf})
                 return o
-            text = open(os.path.join(REPO, src)).read()
+            text = open(os.path.join(REPO, getattr(rf, 'found_in', src))).read()
             m = re.search(r'((?:#\[[^\]]*\]\s*)+)(?:pub(?:\([^)]*\))?\s+)?struct\s+' + Raw, text)
-            attrs = m.group(1) if m else ''
+            if not m:
+                return ob.done([], 'inconclusive', f'declaration of {Raw} (with its attributes) not found in {getattr(rf, "found_in", src)}')
+            attrs = m.group(1)
             if 'serde::Serialize' not in attrs or 'serde::Deserialize' not in attrs or re.search(r'serde\s*\(', attrs):
                 o = ob.done([], 'violated', f'{Raw} is not a plain derive(Serialize, Deserialize) struct: {attrs.strip()}', {'attrs': attrs}, key=f'raw-derive-{kind}')
                 o.replay = write_replay(PROP, o.name, {'attrs': attrs})
